@@ -164,6 +164,9 @@ def check(chk: Check) -> None:
                     chk.fail(rule, inst, f"pyjelly.{key}:rejects-valid:{c01_where(out[2])}", f"a valid stream ({jb['policy']}) is rejected with {out[1]} at {out[2]}; rows {p['rows'][:3]}")
                     continue
                 got = out[1]
+                if key.endswith("grouped") and len(got) != len(p["rows"]):
+                    chk.fail(rule, inst, f"pyjelly.{key}:one-sink-per-frame", f"valid stream of {len(p['rows'])} frames ({jb['policy']}) is delivered as {len(got)} graphs/datasets by the grouped parser")
+                    continue
                 if key.endswith("grouped"):
                     flat: list = []
                     for g in got:
